@@ -58,6 +58,7 @@ fn main() {
         "C05" => props::c05::run(cx),
         "C07" => props::c07::run(cx),
         "C08" => props::c08::run(cx),
+        "C09" => props::c09::run(cx),
         "C10" => props::c10::run(cx),
         "C11" => props::c11::run(cx),
         "C12" => props::c12::run(cx),
